@@ -1,14 +1,23 @@
 #!/venv/bin/python
-"""Detection robustness of the kept seeded changes: tools/seed_matrix.py [seeds…] [--only Cxx-A,…]
+"""Detection robustness of seeded changes over several seeds, without touching /repo.
 
-For every /verif/seeded/<id>/patch.diff: apply to /repo, run the property's quick check with each
-seed (no evidence written), undo. Prints one line per change: which seeds caught it (exit 1 with
-a VIOLATION line), and writes seeded/MATRIX.json. Never run while another check uses /repo.
+  tools/seed_matrix.py [--seeds 0,1,2,3] [--jobs 4] [--tier quick] [--out FILE] [--checks C07,C14] [DIR…]
+
+DIR = a directory with patch.diff (default: every /verif/seeded/<Cxx>-<X>/). For each one a
+scratch git worktree of /repo's HEAD is created under /tmp, the patch applied there, and the
+property's check (or --checks) run against that worktree through the development-only
+VF_DEV_REPO_OVERRIDE switch; the worktree is removed afterwards. The property id is taken from
+the first Cxx in the directory path. Results: one line per change + JSON (default
+seeded/MATRIX.json). The recorded evaluation of a kept change (meta.json) is still done the
+prescribed way by tools/seed_eval.py (git -C /repo apply … checkout).
 """
+import concurrent.futures
 import json
 import os
+import re
 import subprocess
 import sys
+import tempfile
 
 ROOT = os.path.dirname(os.path.dirname(os.path.abspath(__file__)))
 REPO = '/repo'
@@ -19,45 +28,66 @@ def sh(cmd, **kw):
   return p.returncode, p.stdout + p.stderr
 
 
-def main():
-  args = [a for a in sys.argv[1:] if not a.startswith('--')]
-  only = None
-  for a in sys.argv[1:]:
-    if a.startswith('--only='):
-      only = set(a.split('=', 1)[1].split(','))
-  seeds = [int(a) for a in args] or [0, 1, 2, 3]
-  rc, st = sh(['git', '-C', REPO, 'status', '--porcelain'])
-  if st.strip():
-    print('REPO NOT CLEAN'); sys.exit(2)
-  mpath = os.path.join(ROOT, 'seeded', 'MATRIX.json')
-  matrix = json.load(open(mpath)) if os.path.exists(mpath) else {}
-  for name in sorted(os.listdir(os.path.join(ROOT, 'seeded'))):
-    d = os.path.join(ROOT, 'seeded', name)
-    if not os.path.isdir(d) or (only and name not in only):
-      continue
-    prop = name.split('-')[0]
-    rc, o = sh(['git', '-C', REPO, 'apply', os.path.join(d, 'patch.diff')])
+def one(d, seeds, tier, checks):
+  name = '-'.join(os.path.abspath(d).split(os.sep)[-2:]) if os.path.basename(d) in 'ABCDEFGH' else os.path.basename(d.rstrip('/'))
+  prop = re.search(r'C\d\d', os.path.abspath(d)).group(0)
+  wt = tempfile.mkdtemp(prefix='seedmx-')
+  os.rmdir(wt)
+  rc, o = sh(['git', '-C', REPO, 'worktree', 'add', '-q', '--detach', wt, 'HEAD'])
+  res = {}
+  try:
+    rc, o = sh(['git', '-C', wt, 'apply', os.path.join(os.path.abspath(d), 'patch.diff')])
     if rc != 0:
-      print(name, 'PATCH DOES NOT APPLY', o[-200:])
-      continue
-    res = {}
-    try:
+      return name, {'error': 'patch does not apply: ' + o[-200:]}
+    for c in (checks or [prop]):
       for s in seeds:
-        env = dict(os.environ, VERIF_SEED=str(s), PYTHONPATH=f'{REPO}:{ROOT}')
-        rc, o = sh(['/venv/bin/python', '-B', '-m', 'vf.run', prop, '--tier', 'quick', '--no-evidence'],
-                   cwd=ROOT, env=env, timeout=3600)
+        env = dict(os.environ, VERIF_SEED=str(s), PYTHONPATH=f'{wt}:{ROOT}', VF_DEV_REPO_OVERRIDE=wt)
+        rc, o = sh(['/venv/bin/python', '-B', '-m', 'vf.run', c, '--tier', tier, '--no-evidence'],
+                   cwd=ROOT, env=env, timeout=14400)
         keys = [l.strip().split(': ')[0][4:] for l in o.split('\n') if l.strip().startswith('key=')]
-        res[str(s)] = {'exit': rc, 'keys': keys[:4]}
-    finally:
-      sh(['git', '-C', REPO, 'checkout', '--', '.'])
-    caught = [s for s, v in res.items() if v['exit'] == 1]
-    other = {s: v['exit'] for s, v in res.items() if v['exit'] not in (0, 1)}
-    print(name, f'caught {len(caught)}/{len(seeds)}', 'missed-seeds=' + ','.join(s for s in res if s not in caught),
-          ('OTHER-EXITS ' + str(other)) if other else '', flush=True)
-    matrix[name] = res
-    json.dump(matrix, open(mpath, 'w'), indent=1, sort_keys=True)
-  rc, st = sh(['git', '-C', REPO, 'status', '--porcelain'])
-  print('repo clean after:', not st.strip())
+        res[f'{c}:{s}'] = {'exit': rc, 'keys': keys[:4]}
+        if rc not in (0, 1):
+          res[f'{c}:{s}']['tail'] = o[-400:]
+  finally:
+    sh(['git', '-C', REPO, 'worktree', 'remove', '--force', wt])
+  return name, res
+
+
+def main():
+  argv = sys.argv[1:]
+  opts = {'--seeds': '0,1,2,3', '--jobs': '4', '--tier': 'quick', '--out': os.path.join(ROOT, 'seeded', 'MATRIX.json'),
+          '--checks': ''}
+  dirs = []
+  i = 0
+  while i < len(argv):
+    if argv[i] in opts:
+      opts[argv[i]] = argv[i + 1]
+      i += 2
+    else:
+      dirs.append(argv[i])
+      i += 1
+  if not dirs:
+    base = os.path.join(ROOT, 'seeded')
+    dirs = [os.path.join(base, n) for n in sorted(os.listdir(base)) if os.path.isdir(os.path.join(base, n))]
+  seeds = [int(x) for x in opts['--seeds'].split(',')]
+  checks = [c for c in opts['--checks'].split(',') if c]
+  out = opts['--out']
+  matrix = json.load(open(out)) if os.path.exists(out) else {}
+  with concurrent.futures.ThreadPoolExecutor(int(opts['--jobs'])) as ex:
+    futs = [ex.submit(one, d, seeds, opts['--tier'], checks) for d in dirs]
+    for f in concurrent.futures.as_completed(futs):
+      name, res = f.result()
+      if 'error' in res:
+        print(name, res['error'], flush=True)
+        continue
+      caught = [k for k, v in res.items() if v['exit'] == 1]
+      other = {k: v['exit'] for k, v in res.items() if v['exit'] not in (0, 1)}
+      first = next((v['keys'][0] for v in res.values() if v['exit'] == 1 and v['keys']), '')
+      print(f'{name} caught {len(caught)}/{len(res)} missed={[k for k in res if k not in caught]}',
+            ('OTHER-EXITS ' + str(other)) if other else '', first[:110], flush=True)
+      matrix.setdefault(name, {}).update(res)
+      json.dump(matrix, open(out, 'w'), indent=1, sort_keys=True)
+  sh(['git', '-C', REPO, 'worktree', 'prune'])
 
 
 if __name__ == '__main__':
